@@ -74,12 +74,51 @@ def check_class_maps(ctx, rule, m):
     if pr is None:
         raise AnalysisError("TransformedHistogramMixin.projection not found")
     ctx.saw(pr)
-    t = U(pr.node)
-    ok = ("axes, _ = self._get_projection_axes(*axes)" in t and "axes = tuple(sorted(axes))" in t
-          and t.index("_get_projection_axes") < t.index("tuple(sorted(axes))") < t.index("self._projection_class_map[axes]")
-          and "HistogramND.projection(self, *axes, type=klass, **kwargs)" in t)
-    ctx.check(ok, rule, "TransformedHistogramMixin.projection:lookup", "axes resolved, sorted, looked up; class passed as type=",
-              "the mixin does not resolve and sort the axes before consulting the class map (or drops type=klass)", pr.where)
+    # per returning path: the axes handed on are the resolved, sorted ones; a class is forced (type=) exactly on the paths that
+    # found the sorted axes in the class map, and it is the map's entry for them - everything else is left to _reduce_dimension
+    probs_, n_paths = [], 0
+    for p_ in function_paths(pr.node):
+        if end_kind(p_) != "return":
+            continue
+        n_paths += 1
+        env = Env()
+        member = None
+        rets__ = [st_[1] for st_ in p_ if st_[0] == "stmt" and isinstance(st_[1], ast.Return)]
+        for st_ in p_[:-1]:
+            if st_[0] == "stmt" and isinstance(st_[1], ast.Return):
+                break
+            env.step(st_)
+            if st_[0] == "cond" and "_projection_class_map" in U(st_[1]) and isinstance(st_[1], ast.Compare) and isinstance(st_[1].ops[0], (ast.In, ast.NotIn)):
+                member = st_[2] if isinstance(st_[1].ops[0], ast.In) else not st_[2]
+        ret = rets__[-1].value if rets__ else None
+        if not (isinstance(ret, ast.Call) and U(ret.func) == "HistogramND.projection"):
+            probs_.append(f"a path returns `{U(ret)[:60]}`")
+            continue
+        star = [a for a in ret.args if isinstance(a, ast.Starred)]
+        # follow the handed-on name back along the path: ... = sorted(X) where X came out of _get_projection_axes
+        chain, want_ = [], (U(star[0].value) if star and isinstance(star[0].value, ast.Name) else None)
+        for st_ in reversed(p_):
+            if want_ is None or st_[0] != "stmt" or not isinstance(st_[1], (ast.Assign, ast.AnnAssign)):
+                continue
+            tg_ = st_[1].targets[0] if isinstance(st_[1], ast.Assign) else st_[1].target
+            names_ = [U(e) for e in tg_.elts] if isinstance(tg_, ast.Tuple) else [U(tg_)]
+            if want_ in names_ and names_.index(want_) == 0:
+                chain.append(U(st_[1].value))
+                inner = [n.id for n in ast.walk(st_[1].value) if isinstance(n, ast.Name) and n.id not in ("tuple", "sorted", "self", "list")]
+                want_ = inner[0] if inner and "_get_projection_axes" not in chain[-1] else None
+        ax = " <- ".join(chain)
+        if not (any("sorted(" in c_ for c_ in chain) and chain and "_get_projection_axes" in chain[-1]):
+            probs_.append(f"the axes handed on are `{ax[:80]}`, not the resolved axes in sorted order")
+        typ = [k for k in ret.keywords if k.arg == "type"]
+        if member is True:
+            tv = U(env.expand(typ[0].value)) if typ else None
+            if tv is None or "_projection_class_map[" not in tv:
+                probs_.append(f"axes found in the class map, but the class handed on is `{tv}`")
+        elif typ:
+            probs_.append(f"a class (`{U(env.expand(typ[0].value))[:60]}`) is forced although the path did not find the axes in the class map "
+                          "(the default class for the remaining dimension is then not used)")
+    ctx.check(not probs_ and n_paths >= 2, rule, "TransformedHistogramMixin.projection:lookup", "axes resolved, sorted, looked up; class passed as type= on the found path only",
+              " ; ".join(sorted(set(probs_))[:3]) or f"only {n_paths} returning path(s): the class map is not consulted by a membership test", pr.where)
     cy = m.cls("CylindricalHistogram").methods.get("projection")
     if cy is not None:
         ctx.saw(cy)
